@@ -337,6 +337,8 @@ class SchemaGen:
 
     exc_items = 0.0      # probability that a list item is an exception instance (set by fault-oriented profiles)
 
+    long_lists = 0.03
+
     def value_for(self, ty, depth, adv, typename_style=None):
         """Python-side *wire* value (see pyval.py) for output type `ty`; adv = probability of garbage"""
         r = self.r
@@ -353,7 +355,13 @@ class SchemaGen:
             # lists of an abstract type: several items, so that different runtime types meet under the same field nodes
             if depth < 3 and "n" in unwrap_nn(ty["l"]) and base(ty) not in self.leaf_names and len(self.possible(base(ty))) >= 2 and r.random() < 0.6:
                 n = r.randint(2, 4)
+            # now and then a LONG list (the quantifier says all finite lists: positions beyond any batch / chunk size an
+            # implementation may use internally; round 9, C02-r9-4: indices restarted every 32 items)
+            if depth <= 1 and r.random() < self.long_lists:
+                n = r.randint(33, 44) if base(ty) in self.leaf_names else r.randint(33, 36)
             items = [self.value_for(ty["l"], depth + 1, adv) for _ in range(n)]
+            if len(items) > 32 and self.exc_items and r.random() < 0.7:
+                items[r.randrange(32, len(items))] = {"x": False, "m": "late item failure", "e": []}
             if items and isinstance(items[0], dict) and "d" in items[0] and r.random() < 0.25:
                 import copy as _cp
                 items.insert(r.randrange(len(items) + 1), _cp.deepcopy(items[0]))       # the same record twice in one list
